@@ -48,8 +48,8 @@ def main(chk):
                [dict(name="deep-%s-2x2" % n, casc=n, consts=oc.consts(n, 2, 6, acts=ACTS), invs=INVS, props=PROPS) for n in ("delete", "default", "none")]
     # unidirectional mapping (no backref): a move is two explicit steps - attach to the new parent (possibly one without an identity key yet),
     # detach from the old one - and the orphan rule is judged at flush (added for seeded change C39-1)
-    UACTS = ["Add", "Append", "Remove", "Replace", "Delete", "Expunge", "Flush", "CommitReload"]
-    UPROPS = ["UniMemberKept", "AddReachesClosure", "DeleteMarksExactly", "MarkedAreDeleted", "ExpungeExactly"]
+    UACTS = ["Add", "Append", "Remove", "Delete", "Flush", "CommitReload"] if q else ["Add", "Append", "Remove", "Replace", "Delete", "Expunge", "Flush", "CommitReload"]
+    UPROPS = ["UniMemberKept", "AddReachesClosure", "DeleteMarksExactly", "MarkedAreDeleted"] + ([] if q else ["ExpungeExactly"])
     configs.append(dict(name="orphan-uni", casc="orphan", consts=oc.consts("orphan", 2, 5 if q else 6, acts=UACTS, init="half", uni=True), invs=INVS, props=UPROPS,
                         maxlen=5 if q else 6, nrandom=nr, footprint=UACTS))
     if not q:
